@@ -1118,6 +1118,79 @@ func (e *env) corpus() {
 	}
 }
 
+// ---------------------------------------------------------------- chunkPos (ref allocation)
+// posCase drives the real chunkPos.getNextChunkRef from a chosen position.
+func (e *env) posCase(seq, off uint64, cutf bool, steps []chunks.VerifPosStep, corpus string, seed uint64, index int) {
+	refs, cuts, es, eo, ec := chunks.VerifChunkPosRun(seq, off, cutf, steps)
+	st := make([]string, len(steps))
+	ob := make([]string, len(steps))
+	crossed := false
+	for i, x := range steps {
+		st[i] = fmt.Sprintf("(ps %s %d)", gallina.Bool(x.CutRequest), x.DataLen)
+		q, o := refs[i].Unpack()
+		ob[i] = fmt.Sprintf("(po %s %d %d)", gallina.Bool(cuts[i]), q, o)
+		if o+(&rec{data: make([]byte, x.DataLen)}).size() > chunks.MaxHeadChunkFileSize {
+			crossed = true
+		}
+		if cuts[i] {
+			e.meta.Hit("pos-cut")
+		} else {
+			e.meta.Hit("pos-nocut")
+		}
+	}
+	stG, obG := "([] : list (bool * N))", "([] : list (bool * ref))"
+	if len(st) > 0 {
+		stG, obG = gallina.List(st), gallina.List(ob)
+	}
+	e.cf.Add(fmt.Sprintf("CPos %d %d %d %s %s %s (pf %d %d %s)", e.id, seq, off, gallina.Bool(cutf), stG, obG, es, eo, gallina.Bool(ec)))
+	shape := "pos"
+	if crossed {
+		shape = "pos-chunk-beyond-file-limit"
+	}
+	e.meta.Case(e.id, desc{Kind: "pos", Seed: seed, Index: index, Ops: append(st, ob...), Shape: shape, Corpus: corpus})
+	e.meta.Evaluations++
+	key := fmt.Sprint("pos", seq, off, cutf, steps)
+	if !e.seen[key] {
+		e.seen[key] = true
+		e.meta.Nontrivial++
+	}
+	e.id++
+}
+
+// posCases: the file-size boundary (offset+data <= Max < offset+total, exact fit, one over),
+// the first file (offset 0), pending cut requests, and seeded runs of several chunks.
+func (e *env) posCases(seed uint64, n int) {
+	const max = chunks.MaxHeadChunkFileSize
+	one := func(dl int) []chunks.VerifPosStep { return []chunks.VerifPosStep{{DataLen: dl}} }
+	total := func(dl int) int { return (&rec{data: make([]byte, dl)}).size() }
+	for _, dl := range []int{0, 1, 4, 30, 127, 128, 200} {
+		t := total(dl)
+		for _, d := range []int{-2, -1, 0, 1, 2} {
+			e.posCase(3, uint64(max-t+d), false, one(dl), "exact-fit", 0, dl)  // total size ends at Max+d
+			e.posCase(3, uint64(max-dl+d), false, one(dl), "data-fits", 0, dl) // only the data ends at Max+d
+		}
+		e.posCase(3, uint64(max-dl-10), false, one(dl), "data-fits-total-does-not", 0, dl)
+		e.posCase(0, 0, false, one(dl), "first-file", 0, dl)
+		e.posCase(7, 8, true, one(dl), "cut-pending", 0, dl)
+	}
+	for i := 0; i < n; i++ {
+		r := gen.Fork(seed, 500000+i)
+		k := 1 + r.Intn(6)
+		steps := make([]chunks.VerifPosStep, k)
+		for j := range steps {
+			steps[j] = chunks.VerifPosStep{CutRequest: r.Chance(1, 8), DataLen: int(r.PickI64(0, 1, 4, 20, 30, 60, 126, 127, 128, 129, 300, r.Range(0, 400)))}
+		}
+		off := uint64(max - int(r.Range(0, 900)))
+		switch r.Intn(8) {
+		case 0:
+			off = 0
+		case 1:
+			off = uint64(r.Range(8, 5000))
+		}
+		e.posCase(uint64(r.Range(0, 40)), off, r.Chance(1, 10), steps, "", seed, 500000+i)
+	}
+}
+
 func main() {
 	f := gallina.ParseFlags()
 	// a read through a mapping beyond the end of its file must be a recoverable panic (-> RdPanic /
@@ -1125,8 +1198,8 @@ func main() {
 	debug.SetPanicOnFault(true)
 	verifhook.SetHandler(hook)
 	meta := gallina.NewMeta("C25", f.Seed, f.Tier)
-	meta.Rule = "corpus (reproducer schedules) + seeded random sessions of WriteChunk/Chunk/CutNewFile/Truncate with the queue worker stepped by the harness (pop / write+callback / leave map), 1-3 sessions per directory separated by Close + reopen + head-style recovery, a few sessions with 9-64 KiB chunks (writer flushes), and the newest file truncated at chosen offsets (quick: 0,4,8, record starts/ends and +24/+34, each +-2, plus random; thorough: every offset). evaluations = emitted cases; distinct_nontrivial = trace cases with a distinct op/outcome sequence that wrote at least one chunk + restart cases with at least one chunk on disk or a truncated file"
-	cf := &caseWriter{dir: f.Out, perShard: 64,
+	meta.Rule = "chunkPos: real getNextChunkRef from positions around MaxHeadChunkFileSize (exact fit, data-only fit, +-2), offset 0, pending cut, seeded runs of 1-6 chunks; mapper: corpus (reproducer schedules) + seeded random sessions of WriteChunk/Chunk/CutNewFile/Truncate with the queue worker stepped by the harness (pop / write+callback / leave map), 1-3 sessions per directory separated by Close + reopen + head-style recovery, a few sessions with 9-64 KiB chunks (writer flushes), and the newest file truncated at chosen offsets (quick: 0,4,8, record starts/ends and +24/+34, each +-2, plus random; thorough: every offset). evaluations = emitted cases; distinct_nontrivial = trace cases with a distinct op/outcome sequence that wrote at least one chunk + restart cases with at least one chunk on disk or a truncated file"
+	cf := &caseWriter{dir: f.Out, perShard: 100,
 		preamble: "From Coq Require Import List NArith ZArith Uint63.\nFrom Verif Require Import lib.Int64 lib.Bytes model.HeadChunks corr.CorrC25.\nImport ListNotations.\nOpen Scope N_scope.\n"}
 	e := &env{f: f, meta: meta, cf: cf, seen: map[string]bool{}, every: f.Tier == "thorough"}
 	e.corpus()
@@ -1139,6 +1212,7 @@ func main() {
 		e.every = false
 		e.randomScenario(f.Seed, 100000+i, 1+i%2)
 	}
+	e.posCases(f.Seed, f.Count(80, 1500))
 	cf.Flush()
 	meta.Write(f.Out)
 }
